@@ -75,6 +75,10 @@ POSITIONS = [
     "merge-value-in-eager-tag-mapping-in-section",
     "merge-value-in-type-mapping",
     "second-merge-value-in-section",
+    # a merge inside a merged mapping: PyYAML flattens those recursively on its own
+    "merge-nested-value-in-section",
+    "merge-nested-in-list-item-in-section",
+    "merge-nested-twice-in-section",
     # a value that a later pair with the same key replaces
     "duplicate-key-replaced-in-section",
     "duplicate-key-replaced-in-lazy-tag-mapping-in-pipeline",
@@ -294,7 +298,13 @@ def build_document(position, node):
             ("<<", yt.mapping([("k", node)])), ("k", yt.py(2))]))])
     elif position.startswith("merge-"):
         plain = yt.mapping([("p", yt.py(1))])
-        if position == "merge-list-item-in-section":
+        if position == "merge-nested-value-in-section":
+            node = yt.mapping([("r", yt.py(3)), ("<<", node)])
+        elif position == "merge-nested-in-list-item-in-section":
+            node = yt.seq([plain, yt.mapping([("<<", node)])])
+        elif position == "merge-nested-twice-in-section":
+            node = yt.mapping([("<<", yt.seq([yt.mapping([("r", yt.py(3)), ("<<", node)])]))])
+        elif position == "merge-list-item-in-section":
             node = yt.seq([plain, node])
         elif position == "merge-list-in-section":
             node = yt.seq([plain, yt.mapping([("q", yt.py(2))])], tag=node.tag)
